@@ -20,7 +20,10 @@ package fasthttp
 //   (b) when the path used for file selection (ctx.Path(), or what the rewriter returns — obtained by running the same
 //       rewriter on an identical second RequestCtx) contains a NUL byte or a ".." segment, the answer is 4xx/5xx and the
 //       fs.FS variant opened nothing;
-//   (c) no response body contains the outside marker; no file is created outside root/ and croot/.
+//   (c) no response body contains the outside marker; no file is created outside root/ and croot/. Markers are planted
+//       in tmp/outside, in tmp itself and in siblings of Root whose name starts with Root's name (tmp/roota/, tmp/root./,
+//       tmp/root:/, tmp/rootaa, ...), which are reachable without ".." if a path is glued to Root without a separator;
+//       for FS{FS, Root:"a"} every opened name must be "a" or start with "a/".
 // Interpretation: "request paths containing NUL" is judged on the path that selects the file (after rewriting); a NUL
 // that NewPathPrefixStripper cuts away is counted (nul_removed_by_rewriter) but not demanded to be rejected.
 // Not covered here: Windows separators (backslash is an ordinary byte on this platform), symlinks (not lexical).
@@ -47,6 +50,7 @@ import (
 )
 
 const c23Marker = "C23-OUTSIDE-SECRET"
+const c23MemRoot = "a" // Root of the third filesystem kind (a directory inside the fs.FS)
 
 var c23Inside = strings.Repeat("c23 in-root file content, nothing secret in here, compressible. ", 40)
 
@@ -81,6 +85,10 @@ var c23Layout = []string{
 	"a/a", "a/aa", "a/.a", "a/a.a", "a/..a", "a/a..", "a/...", "aa", "a.a", ".a", "a:", "a:a", ":", `a\a`, `a\..\a`, `\`, `..\a`,
 	"invalid-host/a", "invalid-host/aa", "%2e%2e/a", ".../a", "a../a", "..a/a",
 }
+
+// names built from the alphabet ("a", ".", ":", "\\", "..") plus two a maintainer would recognise ("-x", ".bak")
+var c23SiblingDirSuffixes = []string{"a", ".", ".a", "..a", "a.", ":", "\\", "a\\", "a:", "-x", ".bak"}
+var c23SiblingFileSuffixes = []string{"aa", "a.a", "...", ":a", "a..", "\\a"}
 
 type c23Rewriter struct {
 	Name  string
@@ -138,6 +146,20 @@ func c23NewEnv(base string, id int) (*c23Env, error) {
 			return nil, err
 		}
 	}
+	// siblings of Root whose NAME has Root's name as a prefix (root+"a", root+".", root+":" ...): reachable without any
+	// ".." when a path is glued to Root without a separator. Directories carry a marker-named entry for index listings.
+	for _, sfx := range c23SiblingDirSuffixes {
+		for _, name := range []string{"a", "aa", ".a", "a.a", "a:", c23Marker + "-name"} {
+			if err := write(filepath.Join("root"+sfx, name), secret); err != nil {
+				return nil, err
+			}
+		}
+	}
+	for _, sfx := range c23SiblingFileSuffixes {
+		if err := write("root"+sfx, secret); err != nil {
+			return nil, err
+		}
+	}
 	m := fstest.MapFS{}
 	for _, name := range c23Layout {
 		if err := write(filepath.Join("root", name), c23Inside); err != nil {
@@ -167,7 +189,7 @@ func c23NewEnv(base string, id int) (*c23Env, error) {
 		e.h[0] = append(e.h[0], osfs.NewRequestHandler())
 		e.h[1] = append(e.h[1], memfs.NewRequestHandler())
 		e.h[2] = append(e.h[2], memfsCached.NewRequestHandler())
-		memfsRoot := &FS{FS: e.mem, Root: "a", Compress: true, GenerateIndexPages: true, IndexNames: []string{"aa"}, AcceptByteRange: true, PathRewrite: rw.f, SkipCache: true}
+		memfsRoot := &FS{FS: e.mem, Root: c23MemRoot, Compress: true, GenerateIndexPages: true, IndexNames: []string{"aa"}, AcceptByteRange: true, PathRewrite: rw.f, SkipCache: true}
 		e.h[3] = append(e.h[3], memfsRoot.NewRequestHandler())
 	}
 	e.ctx.Init(&Request{}, nil, c23NopLogger{})
@@ -384,6 +406,10 @@ func (e *c23Env) run(r *vrt.R, rwIdx, fsKind int, target, host, ae string, cnt *
 			if why := c23NameOutside(nm); why != "" {
 				r.Violation("fsfs-open-outside:"+why+":"+rw.Kind+sfx,
 					fmt.Sprintf("%s: opened %q (file-selecting path %q, status %d)", desc(), nm, sel, status), art())
+			} else if fsKind == 2 && nm != c23MemRoot && !strings.HasPrefix(nm, c23MemRoot+"/") {
+				// FS{FS: fs.FS, Root: "a"}: the fs.FS also holds "aa", "a.a", "a:", ... next to the root directory
+				r.Violation("fsfs-open-outside-root:name-not-under-root:"+rw.Kind+sfx,
+					fmt.Sprintf("%s: Root=%q but opened %q (file-selecting path %q, status %d)", desc(), c23MemRoot, nm, sel, status), art())
 			} else if !fs.ValidPath(nm) {
 				cnt.memInvalidButInside++
 			}
